@@ -322,6 +322,10 @@ def run(ctx, rep, tier):
         caches_and_mirrors(rep, F, E, G, tag)
         kkt_mirror(rep, F, E, G, tag)
         persistent_equilibration(rep, F, E, G, tag)
+    # an updated solver must behave like a rebuilt one: every solve starts from scratch (C05.R6 re-run)
+    from . import c05, c04
+    for cfg in CONFIGS:
+        c05.fresh_start(c04._Ren(rep, 'C05.R6', 'C08.R9'), ctx.facts(cfg), ctx.eff(cfg), ctx.cg(cfg), '' if cfg == 'default' else '[%s]' % cfg)
     from . import units_rules
     units_rules.c08(ctx, rep)
     if tier == 'thorough':
